@@ -9,6 +9,7 @@ from functools import lru_cache
 from typing import (
     Any,
     ClassVar,
+    ForwardRef,
     Literal,
     Mapping,
     NamedTuple,
@@ -356,6 +357,15 @@ def get_type_info(type_: Any, allow_sequence: bool = True) -> FieldTypeInfo:
     return FieldTypeInfo(is_collection(type_), type_)
 
 
+def _has_forward_ref(type_: Any) -> bool:
+    """Return True if the annotation is, or contains, an unresolved (string)
+    reference."""
+    if isinstance(type_, (str, ForwardRef)):
+        return True
+
+    return any(_has_forward_ref(t) for t in get_args(type_))
+
+
 def get_field_types(type_: type[DataclassInstance]) -> dict[Field, Any]:
     """Return the type of a dataclass field.
 
@@ -368,7 +378,9 @@ def get_field_types(type_: type[DataclassInstance]) -> dict[Field, Any]:
         if f_type is None:
             # A literal `None` annotation means NoneType (as get_type_hints would resolve it)
             f_type = type(None)
-        elif isinstance(f_type, str):
+        elif _has_forward_ref(f_type):
+            # Postponed annotation or a forward reference nested in the annotation
+            # (e.g. Optional["Node"]), which must be resolved to see the node type
             f_type = get_type_hints(type_).get(field.name)
 
         if f_type is None:
